@@ -789,12 +789,24 @@ pub fn run(id: &str, mode: &str, input: &Input) -> String {
             let q = format!("{} cls", head);
             let mut runs: Vec<(u32, u32, BidiClass)> = vec![];
             let mut same = true;
+            let mut panics: Vec<u32> = vec![];
             for cp in 0..=0x10FFFFu32 {
                 if let Some(c) = char::from_u32(cp) {
-                    let cl = unicode_bidi::bidi_class(c);
-                    if HardcodedBidiData.bidi_class(c) != cl {
-                        same = false;
-                    }
+                    let r = guard(|| (unicode_bidi::bidi_class(c), HardcodedBidiData.bidi_class(c)));
+                    let cl = match r {
+                        Some((a, b)) => {
+                            if a != b {
+                                same = false;
+                            }
+                            a
+                        }
+                        None => {
+                            if panics.len() < 8 {
+                                panics.push(cp);
+                            }
+                            continue;
+                        }
+                    };
                     match runs.last_mut() {
                         Some(r) if r.2 == cl && r.1 + 1 == cp => r.1 = cp,
                         _ => runs.push((cp, cp, cl)),
@@ -802,7 +814,7 @@ pub fn run(id: &str, mode: &str, input: &Input) -> String {
                 }
             }
             let s: Vec<String> = runs.iter().map(|(a, b, c)| format!("{:X}-{:X}:{}", a, b, class_name(*c))).collect();
-            format!("{} => SAME={} R={}", q, same as u8, s.join(";"))
+            format!("{} => SAME={} PANICS={} R={}", q, same as u8, hexlist(&panics), s.join(";"))
         }
         Input::Brk => {
             let q = format!("{} brk", head);
@@ -810,9 +822,10 @@ pub fn run(id: &str, mode: &str, input: &Input) -> String {
             let mut none = 0u32;
             for cp in 0..=0x10FFFFu32 {
                 if let Some(c) = char::from_u32(cp) {
-                    match HardcodedBidiData.bidi_matched_opening_bracket(c) {
-                        Some(m) => some.push(format!("{:X}:{}{:X}", cp, if m.is_open { "o" } else { "c" }, m.opening as u32)),
-                        None => none += 1,
+                    match guard(|| HardcodedBidiData.bidi_matched_opening_bracket(c)) {
+                        Some(Some(m)) => some.push(format!("{:X}:{}{:X}", cp, if m.is_open { "o" } else { "c" }, m.opening as u32)),
+                        Some(None) => none += 1,
+                        None => some.push(format!("{:X}:PANIC", cp)),
                     }
                 }
             }
@@ -1157,11 +1170,25 @@ pub fn run(id: &str, mode: &str, input: &Input) -> String {
                 let mut bad = vec![];
                 for n in 0..=126u8 {
                     let l = Level::new(n).unwrap();
-                    let s = serde_json::to_string(&l).unwrap();
-                    let back: Level = serde_json::from_str(&s).unwrap();
-                    if back != l || s != n.to_string() {
+                    let ok = guard(|| match serde_json::to_string(&l) {
+                        Ok(s) => match serde_json::from_str::<Level>(&s) {
+                            Ok(back) => back == l && s == n.to_string(),
+                            Err(_) => false,
+                        },
+                        Err(_) => false,
+                    });
+                    if ok != Some(true) {
                         bad.push(n);
                     }
+                }
+                // whole vectors of computed levels survive the round trip as well
+                let v: Vec<Level> = (0..=126u8).map(|n| Level::new(n).unwrap()).collect();
+                let ok = guard(|| match serde_json::to_string(&v) {
+                    Ok(s) => matches!(serde_json::from_str::<Vec<Level>>(&s), Ok(back) if back == v),
+                    Err(_) => false,
+                });
+                if ok != Some(true) {
+                    bad.push(255);
                 }
                 format!("{} => SERDE=on BAD={}", q, numlist(&bad))
             }
